@@ -11,6 +11,7 @@ Direct oracle (the statement): flagged(o) <=> selected by the filter and spec de
 """
 import itertools
 import json
+import re
 
 PROPERTY = "C19"
 RULE = ("[selected_fields has its own direct oracle: listed path set = reference path set for maxdepth None/0/1/2/3 and fnmatch patterns; "
@@ -215,6 +216,11 @@ def conv_doc(document):
 # ----------------------------------------------------------------------------- reference spec (Python)
 
 def is_skipped(d, vs):
+    """reference semantics; a condition that cannot be evaluated (its variable is unavailable in `vs`) KEEPS the selection
+       (the kept-when-unknown reading of C19-Q1vars2: the depth is an upper bound over the unknown condition)"""
+    if any(c is not None and "var" in c and c["var"] not in vs for c in (d["skip"], d["incl"])):
+        return False
+
     def val(c):
         return c["lit"] if "lit" in c else bool(vs.get(c["var"], False))
     return (d["skip"] is not None and val(d["skip"])) or (d["incl"] is not None and not val(d["incl"]))
@@ -748,7 +754,7 @@ def oracle_failures(real, case, limits=LIMITS, want_valid=True):
                     else:
                         fails.append(("error-order", 0, {"limit": limit, "filter": filt, "flagged": got, "expected": exp}))
                 return fails[:1]
-    if not fails:
+    if not fails and not (case.unavailable and any(case.unavailable)):
         pf = paths_failure(real, case, document)
         if pf:
             return [pf]
@@ -926,7 +932,7 @@ def correspond(ctx, real, cases, fixed, sf_fixed=True, vars_fixed=True):
         if c.raw:
             if not (fixed and vars_fixed):
                 continue
-            key = "ruler"
+            key = "rulecur"
         have = getattr(c, "grid", {})
         for (f, l), m in zip(grid_of(c.doc), a[key]):
             got = have[(f, l)] if (f, l) in have else real.flags(document, c.real_vs, l, f)
@@ -958,6 +964,27 @@ def is_sf_fixed_tree():
 def is_vars_fixed_tree():
     from common import REPO
     return "coerce_variable_values" in (REPO / "src/py_gql/utilities/max_depth.py").read_text()
+
+
+def extract(ctx):
+    """which variant of the rule the tree has (the model follows it): Generated/DepthVariant.lean"""
+    from common import REPO
+    src = (REPO / "src/py_gql/utilities/max_depth.py").read_text()
+    if "class MaxDepthValidationRule" not in src:
+        raise ValueError("max_depth.py no longer defines MaxDepthValidationRule")
+    tolerant = bool(re.search(r"skip_selection\s*=\s*_skip_unless_unknown", src)) and "def _skip_unless_unknown" in src
+    return {"PyGqlModel/Generated/DepthVariant.lean": (
+        "/- GENERATED by harness/corr/C19.py: extract() from src/py_gql/utilities/max_depth.py — do not edit. -/\n"
+        "namespace PyGql.Generated.DepthVariant\n\n"
+        "/-- `_nesting_levels` calls `collect_fields_untyped(..., skip_selection=_skip_unless_unknown)` (C19-Q1vars2.patch) -/\n"
+        "def tolerantSkip : Bool := %s\n\n"
+        "end PyGql.Generated.DepthVariant\n" % ("true" if tolerant else "false"))}
+
+
+def is_tolerant_tree():
+    from common import REPO
+    src = (REPO / "src/py_gql/utilities/max_depth.py").read_text()
+    return bool(re.search(r"skip_selection\s*=\s*_skip_unless_unknown", src)) and "def _skip_unless_unknown" in src
 
 
 def is_fixed_tree():
@@ -1178,7 +1205,7 @@ def uncoercible_stream(ctx, real, check, doc, vs0, j):
         if variant == 2 and vs0:
             v = rng.choice(sorted(vs0))
             raw[v] = rng.choice([[1], [], {"k": 1}, "yes", "", 1, 0])
-        want_unavailable = variant == 2 and vs0 and j % 10 == 0
+        want_unavailable = variant == 2 and vs0 and j % 3 == 0
         if want_unavailable:
             v = rng.choice(sorted(vs0))
             if rng.random() < 0.5:
@@ -1198,6 +1225,27 @@ def uncoercible_stream(ctx, real, check, doc, vs0, j):
         if any(unavailable):
             ctx.stat("directive-variable-unavailable")
         check(case, ("unco", p_doc(doc2), json.dumps(raw, sort_keys=True, default=str)))
+    # the clause "the rule never raises, for any document and ANY JSON variables" on its own (no expectation on the flags:
+    # float forms / nested containers are outside the modelled coercion)
+    hostile = [1.5, 1e308 * 10, "1e5", "true", [[]], {"a": {"b": [1]}}, -2 ** 40, 10 ** 400, None, "", []]
+    names = sorted(set(vs0) | {x["n"] for o in doc2["ops"] for x in o.get("xv", [])})
+    if names:
+        text = p_doc(doc2)
+        document = real.parse(text)
+        for _ in range(2):
+            raw = {n: rng.choice(hostile) for n in names if rng.random() < 0.8}
+            for via in (False, True):
+                ctx.count()
+                ctx.stat("any-json-variables-probe")
+                got = real.flags(document, raw, rng.choice([0, 2]), None, via_validate=via)
+                if isinstance(got, str):
+                    views, ok, unavailable = effective_views(doc2, False, {k: v for k, v in raw.items() if not isinstance(v, float)})
+                    feat = "directive-variable-unavailable" if got == "exc:CoercionError" and any(
+                        v not in py_view(raw) for o in doc2["ops"] for v in vars_in(o["sels"], doc2["frags"])) else "any-json-variables"
+                    ctx.fail("raises:%s:%s" % (got[4:], feat), "the depth rule raises for some JSON request variables",
+                             {"text": text, "variables": json.loads(json.dumps(raw, default=str)), "via_validate_ast": via,
+                              "never_raises_probe": True})
+                    break
 
 
 def pipeline_outcome(real, text, vs, name, limit, rule_filter):
@@ -1362,6 +1410,10 @@ def doc_with_types(doc):
 def replay(ctx, data):
     inp = data.get("input", {})
     real = Real()
+    if inp.get("never_raises_probe"):
+        document = real.parse(inp["text"])
+        return not any(isinstance(real.flags(document, inp["variables"], l, None, via_validate=v), str)
+                       for l in (0, 2) for v in (False, True))
     if "history" in inp:
         steps = inp["history"]
         hdoc = conv_doc(real.parse(inp["text"]))
